@@ -12,6 +12,27 @@ CHECKS = {
  "C10": ("exploration", "dictionary monitor + type-contract monitor (outcome of construction from any value is exception or well-formed encoding of that value)",
          "All classes discovered at run time are compared with the vendored dictionary, docs/list-of-avps.md and definitions.py; instances and load() dispatch are checked; every class is fed in-domain and out-of-domain values and the outcome judged by per-type domain predicates.",
          "refdict.json frozen from the reviewed pinned tree (codes/vendors/types checked by hand against the standards; M/P defaults frozen, not independently verified)", "3 C10"),
+ "C03": ("fault_enumeration", "step-bound guard (sys.monitoring LINE events on the decoder loops) + exception-class oracle over systematic corruptions",
+         "Every truncation point, every length field at every depth set to small/adjacent/extreme values (thorough: all 2^24 values at two fields), bit flips of all header bytes, typed payload faults for all dictionary classes, trailing garbage and random strings are decoded by the real code under an iteration guard; anything but 'returns' or 'library error within the step bound' is a violation. The live-node half (part B) is decided by the scheduler-based scenario runs.",
+         "bound is 4*len+64 loop iterations; exceptions are classified by the module that defines them", "3 C03"),
+ "C09": ("exploration", "reference-model runtime monitor on the typed constructors (vendored command table, argument->AVP rule, reference codec round trip)",
+         "All 50 typed command classes x optional-argument subsets x generated in-domain values x extra keyword AVPs; header, order, mandatory-once, argument class and round trip are judged; omission of default-less mandatory arguments must raise a library error.",
+         "command table written from the RFCs/3GPP TS (bvm/refdict.py); three genuine defects are recorded as known findings", "3 C09"),
+ "C11": ("exploration", "class invariant after every container operation against a list-based reference container (DFS with state hashing + random walks)",
+         "Operation sequences over a small AVP alphabet on generic, decoded and typed messages; invariants I1-I4 evaluated after each operation; DFS with abstract-state hashing over lists of bounded size, random walks beyond.",
+         "names are the attributes whose key contains _avp; identity semantics", "3 C11"),
+ "C12": ("exploration", "postcondition monitor on decorate_answer (request identity, n // 1000 family rule)",
+         "Typed and generic request/answer pairs x Result-Codes (0..65535 exhaustively on one pair, every defined code on every pair) x Session-Id residues x answer shapes.",
+         "multiples of 1000 and answers with both result AVPs are not judged for the E flag", "3 C12"),
+ "C15": ("exploration", "uniqueness monitor with a scripted random source (os.urandom substituted); concurrent part under the deterministic scheduler",
+         "Mixed creation histories with adversarial random sources; draw counting for answers and explicit-header requests; concurrent creators under controlled schedules.",
+         "random sources that can never yield a fresh value are excluded", "3 C15"),
+ "C16": ("exploration", "uniqueness + grammar monitor over generation histories with a virtual clock",
+         "Histories over several identities of AVP creation, typed message creation, bulk origin updates and clock steps; exhaustive to length 5/6, random to length 400/2000.",
+         "library clock replaced by a settable shim", "3 C16"),
+ "C19": ("exploration", "reference-model monitor: independent configuration validator vs the real converter and Diameter(config=)",
+         "12-key product space with valid/invalid values per key, key orders, unknown keys, application lists; YAML spec lists with/without transport.",
+         "strict dotted-quad regex and type(x) is int define validity; ambiguous values are generated but not judged", "3 C19"),
  "C17": ("exploration", "total-function sweep with arithmetic oracle (n // 1000)",
          "All codes 0..65535 exhaustively plus 32-bit boundaries and random values through both the integer predicates and the answer-object predicates.",
          "ResultCodeAVP(n) carries n (C10/C01)", "3 C17"),
